@@ -609,5 +609,85 @@ func genC09(e *emitter, tier string, seed uint64) map[string]interface{} {
 			}
 		}
 	}
+	// 6. ONE Metadata value over a history: decoded from a block (upper-case and duplicate keys included) or built with Set, then edited the
+	// way applications edit an exported map — index assignment, delete, add, the map replaced, Set — and encoded after every step: the block
+	// is a function of the CURRENT map and the budget, whatever the value encoded or decoded before (no remembered block, no cached sizes)
+	nHist := 60
+	if thorough {
+		nHist = 600
+	}
+	for i := 0; i < nHist; i++ {
+		md := &protocol.Metadata{Values: map[string]string{}}
+		start := "set"
+		if i%2 == 0 {
+			start = "decoded"
+			var blk []byte
+			for j, n := 0, 1+rg.intn(5); j < n; j++ {
+				k := []byte(fmt.Sprintf("%s-%d", []string{"Key", "key", "KEY", "authorization", "X-Hop"}[rg.intn(5)], rg.intn(3)))
+				blk = append(blk, encStr(k)...)
+				blk = append(blk, encStr(rg.bytes(rg.pick([]int{0, 1, 5, 130})))...)
+			}
+			if err := md.UnmarshalValues(blk); err != nil {
+				continue
+			}
+		} else {
+			for j, n := 0, rg.intn(5); j < n; j++ {
+				_ = md.Set(fmt.Sprintf("k%d", rg.intn(6)), string(rg.bytes(rg.pick([]int{0, 2, 9}))))
+			}
+		}
+		_ = md.MarshalValues(65535) // an encoding before the edits (what a cache would remember)
+		steps := []string{}
+		for st := 0; st < 6; st++ {
+			keys := make([]string, 0, len(md.Values))
+			for k := range md.Values {
+				keys = append(keys, k)
+			}
+			sort.Strings(keys)
+			if md.Values == nil {
+				md.Values = map[string]string{}
+			}
+			switch op := rg.intn(6); {
+			case op == 0 && len(keys) > 0: // overwrite in place, same length
+				k := keys[rg.intn(len(keys))]
+				md.Values[k] = string(bytes.Repeat([]byte{byte('a' + st)}, len(md.Values[k])))
+				steps = append(steps, "overwrite-same-length")
+			case op == 1 && len(keys) > 0: // overwrite in place, other length
+				md.Values[keys[rg.intn(len(keys))]] = string(rg.bytes(1 + rg.intn(40)))
+				steps = append(steps, "overwrite")
+			case op == 2 && len(keys) > 0: // delete one, add one (the number of pairs stays)
+				delete(md.Values, keys[rg.intn(len(keys))])
+				md.Values[fmt.Sprintf("new-%d", st)] = "n"
+				steps = append(steps, "delete+add")
+			case op == 3:
+				md.Values[fmt.Sprintf("hop-%d", st)] = string(rg.bytes(rg.intn(6)))
+				steps = append(steps, "add")
+			case op == 4: // the map replaced by a copy with one more pair
+				nm := map[string]string{fmt.Sprintf("r%d", st): "replaced"}
+				for k, v := range md.Values {
+					nm[k] = v
+				}
+				md.Values = nm
+				steps = append(steps, "replace-map")
+			default:
+				_ = md.Set(fmt.Sprintf("S%d", rg.intn(4)), string(rg.bytes(rg.intn(12))))
+				steps = append(steps, "Set")
+			}
+			for _, max := range []int{65535, 40, len(md.MarshalValues(65535))} {
+				got := md.MarshalValues(max)
+				cp := make(map[string]string, len(md.Values))
+				for k, v := range md.Values {
+					cp[k] = v
+				}
+				want := (&protocol.Metadata{Values: cp}).MarshalValues(max)
+				if !bytes.Equal(got, want) {
+					idx := e.op(fmt.Sprintf("gz.note md-history start=%s steps=%s max=%d", start, strings.Join(steps, "+"), max), "ok", "history", true)
+					e.fail(idx, "deterministic", fmt.Sprintf("a Metadata value (%s, then %s) encodes its current map (%s) with budget %d as %s; a fresh value holding the same map gives %s", start, strings.Join(steps, ", "), showMap(md.Values), max, showBytes(got), showBytes(want)))
+					st = 99
+					break
+				}
+			}
+		}
+	}
+	e.op("gz.note md-histories", "ok", "history", true)
 	return map[string]interface{}{"exhaustive_subdomains": "all 2^16 two-byte length prefixes; thorough: every string length 0..32768"}
 }
